@@ -232,6 +232,31 @@ FACTS_Q = {1: facts("http", 2, size=1), 2: facts("dns", 1, size=0, tags=()), 3: 
 POOL_T = {1: "http_resp", 2: "dns", 3: "tcp", 4: "udp"}
 FACTS_T = {1: facts("http", 2, size=1), 2: facts("dns", 1, size=0, tags=()), 3: facts("tcp", 3, size=1, marked=True),
            4: facts("udp", 2, size=2)}
+
+
+def _suite():
+    """Directed histories (beyond the quick model's depth) that re-show a flow whose sort key changed while hidden."""
+    def ch(fx, **kw):
+        out = {"marked": fx["marked"], "tags": list(fx["tags"]), "ftype": fx["ftype"], "key": dict(fx["key"])}
+        for k, v in kw.items():
+            if k in ORDERS:
+                out["key"][k] = v
+            else:
+                out[k] = v
+        return out
+    f1 = FACTS_T[1]
+    hide_change_show = [["add", 1], ["add", 3], ["add", 4], ["setorder", "size"], ["setfilter", flt("tag", "a")],
+                        ["update", 1, ch(f1, tags=[])], ["update", 1, ch(f1, tags=[], size=3)],
+                        ["update", 1, ch(f1, tags=["a"], size=3)]]
+    order_roundtrip = [["add", 1], ["add", 3], ["add", 4], ["setorder", "size"], ["setorder", "time"],
+                       ["update", 1, ch(f1, size=3)], ["setorder", "size"]]
+    marked_roundtrip = [["setorder", "size"], ["add", 1], ["add", 3], ["add", 4], ["togglemarked"],
+                        ["update", 4, ch(FACTS_T[4], size=0, tags=[])], ["togglemarked"]]
+    refilter = [["setorder", "size"], ["add", 2], ["add", 1], ["add", 3], ["setfilter", flt("type", "dns", True)],
+                ["update", 2, ch(FACTS_T[2], size=3)], ["setrev", True], ["setfilter", flt("all")]]
+    return [hide_change_show, order_roundtrip, marked_roundtrip, refilter]
+
+
 FILTERS = (flt("all"), flt("tag", "a"), flt("tag", "a", True), flt("type", "http", True), flt("marked"))
 
 
@@ -323,6 +348,11 @@ class Check(core.PropertyCheck):
             yield core.Scenario({"pool": {str(k): v for k, v in p.items()}, "facts": {str(k): v for k, v in f0.items()},
                                  "ff": ff, "via_options": bool(i % 4 == 3), "ops": ops},
                                 predicted=core.predicted_events(b), source=src)
+        for ops in _suite():
+            for ff in (False, True):
+                yield core.Scenario({"pool": {str(k): v for k, v in POOL_T.items()},
+                                     "facts": {str(k): v for k, v in FACTS_T.items()}, "ff": ff, "via_options": ff,
+                                     "ops": ops}, source="suite")
         for _ in range(300 if ctx.quick else 5000):
             yield core.Scenario(self._random(rng), source="random")
 
